@@ -525,6 +525,9 @@ def c17_extra_cases():
         ]
         for base in (64, 100):
             out.append(bitfield_case("ax_%s_%d" % (acc or "none", base), "c17", base, [dict(f) for f in fields], helpers=[ex, en, inner], default=default_spec(0), name="Reg"))
+        # identifier shapes: leading underscore, keyword + underscore
+        out.append(bitfield_case("an_%s_names" % (acc or "none"), "c17", 16, [uint_field("_reserved", [(0, 3)], access=acc), bool_field("_f", 4, access=acc), uint_field("type_", [(5, 7)], access=acc),
+                                                                               uint_field("__", [(8, 9)], access=acc), uint_field("_arr", [(10, 10)], access=acc, array=arr(3, None, 1))], name="Reg"))
         # the code-generation special cases: a field as wide as the storage, top-bit fields, one-bit bases
         for b in (8, 16, 32, 64, 128):
             out.append(bitfield_case("af_%s_u%d" % (acc or "none", b), "c17", b, [uint_field("all", [(0, b - 1)], access=acc)], name="Reg"))
